@@ -5,6 +5,7 @@ import (
 	"context"
 	"database/sql"
 	"path/filepath"
+	"strings"
 
 	"github.com/pojntfx/stfs/internal/converters"
 	"github.com/pojntfx/stfs/internal/records"
@@ -47,6 +48,11 @@ func (o *Operations) Delete(name string) error {
 
 	headersToDelete := []*config.Header{}
 	dbhdr, err := o.metadata.Metadata.GetHeader(context.Background(), name)
+	if err == sql.ErrNoRows {
+		// Directories of archives that were not written by STFS can be indexed with a trailing slash; look them
+		// up the same way `Restore` and `inventory.Stat` do
+		dbhdr, err = o.metadata.Metadata.GetHeader(context.Background(), strings.TrimSuffix(name, "/")+"/")
+	}
 	if err != nil {
 		if err == sql.ErrNoRows {
 			dbhdr, err = o.metadata.Metadata.GetHeaderByLinkname(context.Background(), name)
